@@ -5,6 +5,7 @@ import (
 	"errors"
 	"fmt"
 	"io"
+	"math"
 	"regexp"
 	"sort"
 	"strconv"
@@ -665,12 +666,14 @@ func (e *Evaluator) evalBinaryExpr(expr *ExprBinary) (*Cell, error) {
 			}
 			return NewCell(NewValue(leftNum / rightNum)), nil
 		case Percent:
-			leftInt := int(leftNum)
-			rightInt := int(rightNum)
+			// truncate toward zero in floating point: int(float64) is
+			// platform-defined for magnitudes beyond 2^63
+			leftInt := math.Trunc(leftNum)
+			rightInt := math.Trunc(rightNum)
 			if rightInt == 0 {
 				return nil, e.error(expr.OpToken, "divide by zero")
 			}
-			return NewCell(NewValue(leftInt % rightInt)), nil
+			return NewCell(NewValue(math.Mod(leftInt, rightInt) + 0)), nil
 		default:
 			panic("unhandled operator")
 		}
